@@ -1605,6 +1605,7 @@ class Lib:
         spec = I.world.loop_spec(I, ordinal, st)
         if spec is None:
             raise Undecided(f'for loop #{ordinal} over a symbolic iterable without invariant (line {st.lineno})')
+        ordinal = I.world.spec_ordinal(spec, ordinal)
         label = str(ordinal)
         g = spec.ghost
         ordered = True
@@ -1687,6 +1688,7 @@ class Lib:
         I.exec_block(st.orelse, scope)
 
     def loop_while(self, I, st, scope, ordinal, spec):
+        ordinal = I.world.spec_ordinal(spec, ordinal)
         label = str(ordinal)
         dead_after = self._check_loop_frame(I, st, spec, scope)
         self._lift_concrete_vars(I, spec, scope)
